@@ -27,7 +27,7 @@ WEIGHTS = dict(if_=4, for_=4, assign=3, macro=1.2, call=3, ins=3, data=5, label=
 
 def plan(tier: str, seed: int) -> list[dict]:
     n, per = (16, 70) if tier == "quick" else (64, 480)
-    return [{"seed": seed * 100_000 + i, "n": per} for i in range(n)]
+    return [{"seed": seed * 100_000 + i, "n": per} for i in range(n)] + [{"seed": seed, "n": 0, "big_loop": 0x10000 if tier == "thorough" or seed % 4 == 0 else 0xFFFF + 1}]
 
 
 # ----------------------------------------------------------------------------
@@ -38,7 +38,7 @@ def directed(rng: random.Random) -> dict:
     body.append({"k": "assign", "n": "cnA", "e": E(cval) if cval >= 0 else E("-", -cval)})
     kind = rng.choice(["if_const", "if_undef", "for_bounds", "if_loopvar", "nested", "macro_if", "macro_for", "for_label", "else_chain",
                        "if_defines", "if_defines_label", "macro_if_defines", "for_shadow", "for_after", "macro_defined_in_if",
-                       "macro_defined_in_empty_loop", "loop_state_per_iteration", "scope_in_loop"])
+                       "macro_defined_in_empty_loop", "loop_state_per_iteration", "scope_in_loop", "loop_forward_label_shadow"])
     db = lambda *es: {"k": "data", "d": "db", "es": [e if isinstance(e, list) else E(e) for e in es]}  # noqa: E731
     if kind == "if_const":
         st = {"k": "if", "c": rng.choice([E("cnA"), E("cnA", "&", 1), E("cnA", "+", 1), E("cnA", "-", cval)]), "t": [db(1)], "e": [db(2)] if rng.random() < 0.6 else None}
@@ -118,6 +118,14 @@ def directed(rng: random.Random) -> dict:
             {"k": "data", "d": "dw", "es": [E("rec.tail")]},
             {"k": "scope", "n": "rec", "b": [{"k": "label", "n": "head"}, db(E("itS")), {"k": "label", "n": "tail"}]},
             {"k": "data", "d": "dw", "es": [E("rec.head"), E("rec.tail")]}]}]
+    elif kind == "loop_forward_label_shadow":
+        # the loop body names a label its own enclosing scope defines only after the loop, while an outer scope has the name too
+        ref = lambda: {"k": "ins", "m": rng.choice(["jmp", "jsr", "lda"]), "shape": "dir", "sz": rng.choice(["", "", "w"]), "e": E("done")}  # noqa: E731
+        body += [{"k": "label", "n": "done"}, db(0x60),
+                 {"k": "macro", "n": "macD", "ps": ["pn"], "b": [{"k": "for", "v": "itD", "a": E(0), "b": E("pn"), "body": [db(E("itD")), ref()]}, db(0xEA), {"k": "label", "n": "done"}, db(0x6B)]},
+                 {"k": "call", "n": "macD", "as": [E(rng.choice([1, 2, 3]))]},
+                 {"k": "block", "b": [{"k": "for", "v": "itE", "a": E(0), "b": E(2), "body": [ref(), {"k": "data", "d": "dw", "es": [E("done")]}]}, db(0xEA), {"k": "label", "n": "done"}]},
+                 ref()]
     elif kind == "for_after":
         body += [{"k": "for", "v": "itJ", "a": E(1), "b": E(3), "body": [db(E("itJ"))]},
                  {"k": "if", "c": E("itJ"), "t": [db(0x01)], "e": [db(0x02)]}]
@@ -212,8 +220,27 @@ def check_program(res: Res, p: dict) -> None:
             res.count("stmts_" + st["k"])
 
 
+def run_big_loop(res: Res, count: int) -> None:
+    """A loop over a whole bank: one body copy per value, in order (judged directly, the twin would be 65536 blocks)."""
+    from vf.harness import assemble
+
+    for start in (0, 0x20):
+        src = f"*=0x018000\n.for vbig := {start:#x}, {start + count:#x} {{\n.db vbig >> 8\n}}\n.db 0xEE\n"
+        r = assemble(src)
+        res.case(src, True)
+        res.count("bank_sized_loops")
+        exp = bytes(((start + i) >> 8) & 0xFF for i in range(count)) + b"\xee"
+        got = b"".join(b for _, b in r.blocks) if r.ok else b""
+        if not r.ok or got != exp:
+            res.violate("long-loop", f".for over {count} values: " + (f"rejected: {r.err_kind}: {r.err_text[:120]}" if not r.ok else f"{len(got)} bytes emitted, expected {len(exp)}"),
+                        {"p": {"prog": [{"k": "raw", "text": src.rstrip()}], "files": {}, "tables": {}, "rom": "low"}, "src": src})
+
+
 def run_shard(shard: dict) -> Res:
     res = Res()
+    if shard.get("big_loop"):
+        run_big_loop(res, shard["big_loop"])
+        return res
     rng = random.Random(shard["seed"])
     for i in range(shard["n"]):
         if i % 3 == 0:
